@@ -79,9 +79,38 @@ def _edge_logits(rng, n):
     return th
 
 
-def _family(rng, which=None, max_points=9, edge=False, par=None):
+def _ninf_row(rng, row, like=None):
+    """a row of logits in which some (not all) classes are impossible: logit -inf.  `like`: put the
+    -inf entries (at least) where that row has them (a density dominated by the proposal)."""
+    row = list(row)
+    V = len(row)
+    if like is not None:
+        idx = [j for j, x in enumerate(like) if fam.is_ninf(x)]
+    else:
+        idx = rng.sample(range(V), rng.randint(1, max(1, V - 2)) if rng.random() < 0.7 else V - 1)
+    for j in idx:
+        row[j] = "-inf"
+    return row
+
+
+def _family(rng, which=None, max_points=9, edge=False, par=None, ninf=False, like=None):
+    """ninf: categorical families only, `logits` parametrisation with zero-probability classes
+    (logit -inf); `like`: a family instance whose -inf positions are copied."""
     which = which or rng.choice(["bern1", "bern2", "bern3", "cat2w", "cat3", "onehot3", "cat2"])
     par = par or rng.choice(["probs", "logits"])
+    if ninf:
+        sp = _family(rng, which, par="logits", edge=edge)
+        while like is not None and fam.n_points(sp) != fam.n_points(like):
+            sp = _family(rng, which, par="logits", edge=edge)
+        if sp["fam"] == "cat2":
+            lk = like["theta"] if like else [None, None]
+            rows = [_ninf_row(rng, sp["theta"][0], lk[0]), sp["theta"][1]]
+            if like or rng.random() < 0.5:
+                rows[1] = _ninf_row(rng, sp["theta"][1], lk[1])
+            sp["theta"] = rows
+        else:
+            sp["theta"] = _ninf_row(rng, sp["theta"], like["theta"] if like else None)
+        return sp
     probs = _edge_probs if edge else _probs
     simplex = _edge_simplex if edge else _simplex
     logits = _edge_logits if edge else _logits
@@ -112,7 +141,7 @@ def _is_edge(spec):
     flat = [x for r in th for x in r] if spec["fam"] == "cat2" else th
     if spec["param"] == "probs":
         return any(F(x) < Fr(1, 1000) for x in flat)
-    return any(abs(F(x)) >= 17 for x in flat)
+    return any(abs(F(x)) >= 17 for x in flat if not fam.is_ninf(x))
 
 
 # ---- relaxed distributions: parameter values and draws, boundary and near-boundary included
@@ -142,6 +171,17 @@ def _table(rng, M):
 
 
 ALL_FAMS = ["bern1", "bern2", "bern3", "cat2w", "cat3", "onehot3", "cat2"]
+CAT_FAMS = ["cat2w", "cat3", "onehot3", "cat2"]
+# zero-probability classes handed over as logits = -inf (torch's Categorical / log_softmax support
+# them; a Bernoulli with an infinite logit is outside torch's own domain: its log_prob is NaN)
+G_NINF = [["0", "-inf"], ["-inf", "0"], ["3/10", "-inf", "1"], ["-inf", "1/2", "-inf"], ["0", "0", "-inf"],
+          ["-inf", "-2", "2"], ["-inf", "-inf", "7"], ["20", "-inf", "-20"]]
+
+
+def _g_ninf(rng):
+    if rng.random() < 0.5:
+        return list(rng.choice(G_NINF))
+    return _ninf_row(rng, _logits(rng, rng.choice([2, 3, 3, 4])))
 
 
 def model_probs(check, case):
@@ -278,6 +318,65 @@ class C19(PropertyCheck):
                         yield {"kind": "gumbel", "param": par, "theta": [fs(x) for x in th], "dtype": dtype,
                                "us": [fs(rng.choice(G_GRID)) for _ in range(V)],
                                "vs": [fs(x) for x in vs], "k": k, "validate": rng.random() < 0.5}
+        # zero-probability classes handed over through `logits=` (-inf entries; the `probs=` route is
+        # in G_EDGE): every conditioning class, the impossible ones too, both dtypes
+        for _ in range(36 if not big else 360):
+            th = _g_ninf(rng)
+            V = len(th)
+            dtype = rng.choice(["float64", "float32"])
+            for k in range(V):
+                yield {"kind": "gumbel", "param": "logits", "theta": th, "dtype": dtype,
+                       "us": [fs(rng.choice(G_GRID)) for _ in range(V)],
+                       "vs": [fs(rng.choice(G_GRID)) for _ in range(V)], "k": k,
+                       "validate": rng.random() < 0.5}
+        # ---- the same distributions as TENSORS: parameter of shape (), (K,), (N, K) [Bernoulli] /
+        # (V,), (B, V), (B1, B2, V) [categorical: the last axis is the class axis], constructed with
+        # `probs=` or `logits=`, optionally `expand`ed, sampled with a sample shape; every entry / row
+        # must behave as the one-variable distribution of ITS parameter (and `probs` / `logits` must
+        # denote the same distribution whichever was given)
+        def prod(l):
+            n = 1
+            for x in l:
+                n *= x
+            return n
+        for i in range(48 if not big else 480):
+            par = rng.choice(["probs", "logits"])
+            shape = rng.choice([[], [3], [2], [2, 2], [3, 2], [1], [2, 1]])
+            if par == "probs":
+                pool = LB_PROBS + [Fr(k, 16) for k in range(1, 16)] * 2
+            else:
+                pool = LB_LOGITS + [Fr(k, 8) for k in range(-24, 25)]
+            expand = rng.choice([None, None, [2], [2, 1]])
+            sample = rng.choice([[], [], [2], [1, 2]])
+            n = prod(shape) * prod(expand or []) * prod(sample)
+            yield {"kind": "bern_nd", "param": par, "shape": shape,
+                   "values": [fs(rng.choice(pool)) for _ in range(prod(shape))],
+                   "expand": expand, "sample": sample, "dtype": rng.choice(["float64", "float64", "float32"]),
+                   "us": [fs(rng.choice(U_GRID)) for _ in range(n)],
+                   "vs": [fs(rng.choice(U_GRID)) for _ in range(n)], "validate": rng.random() < 0.5}
+        for i in range(48 if not big else 480):
+            par = rng.choice(["probs", "logits"])
+            V = rng.choice([2, 3, 3, 4])
+            batch = rng.choice([[], [2], [3], [2, 2], [1], [2, 1]])
+            rows = []
+            for _ in range(prod(batch)):
+                r = rng.random()
+                edge = [th for pr, th in G_EDGE if pr == par and len(th) == V]
+                if r < 0.2 and edge:
+                    rows.append([fs(x) for x in rng.choice(edge)])
+                elif r < 0.45 and par == "logits":
+                    rows.append(_ninf_row(rng, _logits(rng, V)))
+                else:
+                    rows.append(_logits(rng, V) if par == "logits" else _simplex(rng, V))
+            expand = rng.choice([None, None, [2], [2, 1]])
+            sample = rng.choice([[], [], [2], [1, 2]])
+            n = prod(batch) * prod(expand or []) * prod(sample)
+            yield {"kind": "gumbel_nd", "param": par, "shape": batch + [V],
+                   "values": [x for r in rows for x in r], "expand": expand, "sample": sample,
+                   "dtype": rng.choice(["float64", "float64", "float32"]),
+                   "us": [[fs(rng.choice(G_GRID)) for _ in range(V)] for _ in range(n)],
+                   "vs": [[fs(rng.choice(G_GRID)) for _ in range(V)] for _ in range(n)],
+                   "ks": [rng.randrange(V) for _ in range(n)], "validate": rng.random() < 0.5}
         # ---- estimators: whole sample space
         reps = 2 if not big else 12
         for _ in range(reps):
@@ -320,6 +419,24 @@ class C19(PropertyCheck):
                     if which in ("bern1", "cat2w", "cat3", "onehot3"):
                         sp = _family(rng, which, edge=True, par=par)
                         yield {"kind": "enumerate", "dist": sp, "f": _table(rng, fam.n_points(sp))}
+        # zero-probability classes given through `logits=` (-inf): the sample space is the support (an
+        # impossible class is never drawn and contributes nothing to the expectation or its gradient);
+        # every categorical family, N in {1, 2}; IS with a density that the proposal dominates
+        for _ in range(1 if not big else 6):
+            for which in CAT_FAMS:
+                for N in (1, 2):
+                    sp = _family(rng, which, ninf=True)
+                    M = fam.n_points(sp)
+                    for cvmode in ("none", rng.choice(["cv", "cv_detached"])):
+                        yield {"kind": "direct", "dist": sp, "N": N, "f": _table(rng, M),
+                               "c": None if cvmode == "none" else _table(rng, M),
+                               "cv_mean_detached": cvmode == "cv_detached"}
+                    yield {"kind": "is", "proposal": sp, "density": _family(rng, which, ninf=True, like=sp),
+                           "N": N, "f": _table(rng, M)}
+                    yield {"kind": "is", "proposal": sp, "density": "same", "N": N, "f": _table(rng, M)}
+                if which != "cat2":
+                    sp = _family(rng, which, ninf=True)
+                    yield {"kind": "enumerate", "dist": sp, "f": _table(rng, fam.n_points(sp))}
         for total in range(1, 5):
             for given in range(0, total + 1):
                 yield {"kind": "enumerate_srswor", "total": total, "given": given,
@@ -329,18 +446,21 @@ class C19(PropertyCheck):
         us = [Fr(0), Fr(1, 1 << 30), Fr(1, 8), Fr(1, 2), Fr(7, 8), 1 - Fr(1, 1 << 24)]
         for _ in range(60 if not big else 600):
             which = rng.choice(["bern1", "bern2", "cat3", "onehot3"])
-            sp = _family(rng, which, edge=rng.random() < 0.25)
+            ninf = which in ("cat3", "onehot3") and rng.random() < 0.3
+            sp = _family(rng, which, ninf=True) if ninf else _family(rng, which, edge=rng.random() < 0.25)
             M = fam.n_points(sp)
             N = rng.randint(1, 5)
-            same = rng.random() < 0.6
+            same = ninf or rng.random() < 0.6
             dens = "same"
             if not same:
                 dens = _family(rng, which)
                 while fam.n_points(dens) != M or dens["fam"] != sp["fam"]:
                     dens = _family(rng, which)
+            # an impossible class is never proposed
+            sup = [j for j, x in enumerate(sp["theta"]) if not fam.is_ninf(x)] if ninf else list(range(M))
             yield {"kind": "imh", "proposal": sp, "density": dens, "N": N, "burn_in": rng.randrange(N),
-                   "init": rng.choice([None, rng.randrange(M)]),
-                   "draws": [rng.randrange(M) for _ in range(N + 1)],
+                   "init": rng.choice([None, rng.choice(sup)]),
+                   "draws": [rng.choice(sup) for _ in range(N + 1)],
                    "us": [fs(rng.choice(us)) for _ in range(N)], "f": _table(rng, M)}
         # ---- relaxation-based estimators; p = k/16 for EVERY k in 0..16 (p = 0 and p = 1 included: the
         # estimate must then be f(0) resp. f(1) exactly)
@@ -355,6 +475,25 @@ class C19(PropertyCheck):
             yield {"kind": "st_value", "ks": [k], "f": _table(rng, 4)}
             yield {"kind": "relax_value", "k": k, "f": _table(rng, 2),
                    "cv": [fs(_dy(rng, -2, 2, 4)), fs(_dy(rng, -2, 2, 4)), fs(_dy(rng, 1, 3, 4))]}
+        # the same clause for BOTH constructions (`logits = log(k / (16 - k))`: the conditional sample is
+        # then drawn with the lazily derived `probs`), parameter tensors of shape (), (K,), (N, K) with a
+        # different p = k/16, integrand and control variate per entry, and the library's own REBAR control
+        # variate next to a hand-written one; both depend on the RELAXED sample, so the grid mean is E f
+        # only if csample(b, .) has the law of the relaxed sample restricted to the region of b
+        for i in range(4 if not big else 30):
+            yield {"kind": "st_value", "param": "logits", "ks": [rng.randint(1, 15) for _ in range(rng.choice([1, 2]))],
+                   "f": _table(rng, 4)}
+        for i in range(16 if not big else 120):
+            par = "logits" if i % 2 == 0 else "probs"
+            shape = rng.choice([[], [1], [2], [3], [2, 2]])
+            n = prod(shape)
+            kpool = list(range(1, 16)) if par == "logits" else list(range(0, 17))
+            if n > 2:
+                kpool = [k for k in kpool if k % 4 == 0]      # keeps the common refinement of the grids small
+            yield {"kind": "relax_value", "param": par, "shape": shape,
+                   "ks": [rng.choice(kpool) for _ in range(n)], "f": [_table(rng, 2) for _ in range(n)],
+                   "cvkind": rng.choice(["smooth", "rebar"]),
+                   "cv": [fs(_dy(rng, -2, 2, 4)), fs(_dy(rng, -2, 2, 4)), fs(rng.choice([Fr(1, 2), Fr(1), Fr(2)]))]}
         cdraw = [Fr(0), Fr(1, 1 << 40), 1 - Fr(1, 1 << 53), Fr(1)]
         for i in range(40 if not big else 400):
             N = rng.choice([1, 2, 3])
@@ -376,6 +515,8 @@ class C19(PropertyCheck):
                 if i % 8 == 0:
                     gpar, gth = rng.choice(G_EDGE)
                     gth = [fs(x) for x in gth]
+                elif i % 8 == 4:      # impossible classes through logits = -inf
+                    gpar, gth = "logits", _g_ninf(rng)
                 else:
                     V = rng.choice([2, 3])
                     gpar = rng.choice(["logits", "probs"])
